@@ -160,7 +160,7 @@ func genCase(rt *rapid.T) lookupCase {
 	if c.ZA {
 		zones = []string{"a", "b", "c", "d", "e"}[:rapid.IntRange(1, 5).Draw(rt, "zones")]
 	}
-	c.Ins = gen.Instances(rt, gen.Opts{MinN: 0, MaxN: 8, Zones: zones, MinTok: 0, MaxTok: 4, HealthyBias: rapid.Bool().Draw(rt, "healthyBias")})
+	c.Ins = gen.Instances(rt, gen.Opts{MinN: 0, MaxN: 8, Zones: zones, MinTok: 0, MaxTok: 4, HealthyBias: rapid.Bool().Draw(rt, "healthyBias"), ReadOnly: rapid.Bool().Draw(rt, "someReadOnly")})
 	if c.ZA && rapid.IntRange(0, 3).Draw(rt, "someUnzoned") == 0 {
 		// zone-awareness on with members that carry no zone (a ring in migration): they are in no zone
 		for i := range c.Ins {
@@ -404,6 +404,7 @@ func TestWalkLargeRapid(t *testing.T) {
 				in.State = rapid.SampledFrom(gen.LiveStates).Draw(rt, "state")
 				in.AgeSec = rapid.SampledFrom(gen.Ages).Draw(rt, "age")
 			}
+			in.RO = rapid.IntRange(0, 5).Draw(rt, "readOnly") == 0
 			c.Ins = append(c.Ins, in)
 		}
 		for i, tk := range toks {
